@@ -31,7 +31,8 @@ def main(ctx, args):
         "bytecodegen, wasmgen, wasmtime are exercised, not modelled",
         "corpus stream: every .mmm under lib/, examples/, mimium-test/tests/mmm that both backends accept with a dsp, plus token-level mutants (constant tweaks, operator swaps; constants next to `%` and zero are not injected: findings G4, G5)",
         "generated programs: profiles `scalar*`, `nolam` (tuples, nested patterns, records, tuple-valued self) and `records`; "
-        "lambdas are excluded from the C01 stream because the pinned back ends have listed defects there (WASM: G2, F11; VM: G3)",
+        "closures are in the stream (profiles core, closure_assign, nested, nested_assign: lambdas inside lambdas, inner closures escaping the middle one); "
+        "stateful lambdas are not generated (listed: F11)",
     ]
     known = load_known("C01")
     if not extract(ctx):
@@ -45,10 +46,10 @@ def main(ctx, args):
     plan = [("scalar", 800, False), ("scalar_tself", 400, False), ("scalar_deep", 300, False), ("nolam", 700, False), ("records", 300, False),
             ("aggr", 400, False), ("scalar", 200, True),
             # closures (captured reads and writes, lambdas inside lambdas): both back ends agree on them since ee06339 / 4f22791
-            ("core", 400, False), ("closure_assign", 200, False), ("nested", 200, False), ("nested_assign", 200, False)] if ctx.tier == "quick" else \
+            ("core", 400, False), ("closure_assign", 200, False), ("nested", 300, False), ("nested_assign", 600, False)] if ctx.tier == "quick" else \
            [("scalar", 8000, False), ("scalar_tself", 4000, False), ("scalar_deep", 3000, False), ("nolam", 8000, False), ("records", 3000, False),
             ("aggr", 4000, False), ("scalar", 2000, True),
-            ("core", 4000, False), ("closure_assign", 2000, False), ("nested", 2000, False), ("nested_assign", 2000, False)]
+            ("core", 4000, False), ("closure_assign", 2000, False), ("nested", 2000, False), ("nested_assign", 6000, False)]
     allcases = []
     gstats = collections.Counter()
     if args.replay:
@@ -56,6 +57,9 @@ def main(ctx, args):
         allcases = [{"id": "replay", "src": r["src"], "sx": r.get("sx"), "inputs": r.get("inputs", []), "times": r.get("times", 16),
                      "scheduler": r.get("scheduler", False)}]
     else:
+        import c02
+        allcases = c02.corpus_cases("C01")          # hand-written programs first (corpus/C01)
+        gstats["corpus_programs"] += len(allcases)
         off = 0
         for prof, n, sched in plan:
             cs, st = pc.gen_cases(ctx.seed, n, prof, times, start=off)
